@@ -40,10 +40,10 @@ from ..core import rng_for, short_tb
 
 PROP = "C18"
 LEVEL = "exploration"
-RULE = ("case = one schedule point: (schedule A|B|C, snapshot operation, writer style in {relabel, rebuild, mixed}, writer "
-        "phase p of m, nesting depth, number of readers) or one stress run (seed, writers, readers, iterations); every "
+RULE = ("case = one schedule point: (schedule A|B|C|D, snapshot operation, writer style in {relabel, rebuild, mixed}, writer "
+        "phase p of m, nesting depth, number of readers; D: kind of exception that ends the critical section) or one stress run (seed, writers, readers, iterations); every "
         "(operation x style x phase) cell is enumerated; non-trivial = schedule with a writer phase strictly inside the "
-        "critical section, schedule B, or a stress run with >= 1 observed blocking; distinct by case description")
+        "critical section, schedule B or D, or a stress run with >= 1 observed blocking; distinct by case description")
 ASSUMPTIONS = [
     "CPython GIL: interleavings finer than bytecode boundaries do not exist; the stress part samples, the schedule part enumerates",
     "a firing watchdog (20 s per schedule point) is INCONCLUSIVE, never a violation",
